@@ -523,3 +523,95 @@ Definition dimacs_export (f : form) : dimacs :=
          (map (fun s => (s, match tbl_get pb (pb_var s) with Some i => i | None => 0 end))
               (sort_strings names))
          (c_clauses c).
+
+(* ------------------------------------------------------------------ *)
+(* Side conditions on the public-API formulas used by the theorems.     *)
+
+(* The definitions "dummy = Or(members)" that uniqueRec generates
+   (bf.go:368-373), in the order of the recursion. *)
+Fixpoint unique_defs (fuel : nat) (vars : list var) : list (var * list var) :=
+  let n := List.length vars in
+  if (n <=? 4)%nat then [] else
+  match fuel with
+  | O => []
+  | S k =>
+    let nbl := nb_lines n in
+    let nbc := nb_cols n in
+    let full := String.concat "-" (map vname vars) in
+    let lines := grid_vars "line-" nbl full in
+    let cols := grid_vars "col-" nbc full in
+    combine lines (lines_of vars nbl nbc) ++ combine cols (cols_of vars nbc)
+    ++ unique_defs k lines ++ unique_defs k cols
+  end.
+
+Fixpoint sdefs (f : sform) : list (var * list var) :=
+  match f with
+  | SNot g => sdefs g
+  | SAnd l => flat_map sdefs l
+  | SOr l => flat_map sdefs l
+  | SImplies a b => sdefs a ++ sdefs b
+  | SEq a b => sdefs a ++ sdefs b
+  | SXor a b => sdefs a ++ sdefs b
+  | SUnique names => unique_defs (List.length names) (map pb_var names)
+  | _ => []
+  end.
+
+Definition mem_var (v : var) (l : list var) : bool := existsb (var_eqb v) l.
+
+Fixpoint vars_eqb (a b : list var) : bool :=
+  match a, b with
+  | [], [] => true
+  | x :: a', y :: b' => var_eqb x y && vars_eqb a' b'
+  | _, _ => false
+  end.
+
+(* The dummies of the Unique groups of a formula are named from the names
+   of the group joined with "-"; two different groups can get the same dummy
+   (Unique("a-b","c",..) and Unique("a","b-c",..)), and a dummy can be a
+   member of another group.  [good_defs]: a dummy is never a member of its
+   own or of an earlier definition, and two definitions of the same dummy
+   have the same members. *)
+Fixpoint good_defs (defs : list (var * list var)) : bool :=
+  match defs with
+  | [] => true
+  | (d, l) :: rest =>
+    vdummy d && negb (mem_var d l)
+    && forallb (fun e : var * list var =>
+                  negb (mem_var (fst e) l)
+                  && (if var_eqb (fst e) d then vars_eqb (snd e) l else true)) rest
+    && good_defs rest
+  end.
+
+Definition clash_free (f : sform) : bool := good_defs (sdefs f).
+
+(* Exactly-one groups of more than 4 names occur only positively
+   ([pol] = true: the current position is positive).  Both sides of Eq and
+   Xor, and the left of Implies, occur under a negation (bf.go:297-309). *)
+Fixpoint pos_unique (pol : bool) (f : sform) : bool :=
+  match f with
+  | SNot g => pos_unique (negb pol) g
+  | SAnd l => forallb (pos_unique pol) l
+  | SOr l => forallb (pos_unique pol) l
+  | SImplies a b => pos_unique (negb pol) a && pos_unique pol b
+  | SEq a b => pos_unique true a && pos_unique false a && pos_unique true b && pos_unique false b
+  | SXor a b => pos_unique true a && pos_unique false a && pos_unique true b && pos_unique false b
+  | SUnique names => pol || (List.length names <=? 4)%nat
+  | _ => true
+  end.
+
+Definition positive_unique (f : sform) : bool := pos_unique true f.
+
+(* the assignment of the names read off a model of the clauses *)
+Definition names_of (c : bfcnf) (m : model) (dflt : string -> bool) (s : string) : bool :=
+  env_of c m (fun v => dflt (vname v)) (pb_var s).
+
+(* no two variables of vars.pb have the same name: the Go result map (keyed
+   by name, bf.go:426-429) then does not depend on the iteration order *)
+Fixpoint nodup_str (l : list string) : bool :=
+  match l with
+  | [] => true
+  | x :: r => negb (existsb (String.eqb x) r) && nodup_str r
+  end.
+
+Definition names_distinct (f : form) : bool :=
+  nodup_str (map (fun e : var * Z => vname (fst e)) (v_pb (c_vars (as_cnf f)))).
